@@ -45,7 +45,7 @@ class Job:
         self.replace, self.inline, self.const_classes = list(replace), list(inline), list(const_classes)
         self.select, self.real, self.unwind, self.strcap = select, real, unwind, strcap
         self.timeout, self.tier = timeout, tier
-        self.cname = cname or func.replace('::', '_') + ('_f' if real == 'float' else '')
+        self.cname = cname or ((func.replace('::', '_') + ('_f' if real == 'float' else '')) if func else name.replace('.', '_'))
         self.may_throw, self.srcrel = may_throw, srcrel
         self.extra_cflags, self.cbmc_flags = list(extra_cflags), list(cbmc_flags)
         self.no_checks, self.stubs, self.self_const, self.arity = no_checks, list(stubs), self_const, arity
@@ -126,6 +126,8 @@ def build_tu(proj, job):
     """returns dict(text=..., entry=..., cname=..., replace_cnames=[...], meta=...)"""
     report = X.Report()
     real = job.real
+    if job.lemma:
+        return build_lemma_tu(proj, job, report)
     cls = job.func.split('::')[0]
     fi = T.funcinfo(proj, job.func, job.cname, real, job.select, job.may_throw, job.arity)
     functable = {}
@@ -134,6 +136,8 @@ def build_tu(proj, job):
     for spec in job.replace:
         q, opt = _callee(spec)
         cfi = T.funcinfo(proj, q, opt.get('cname'), real, opt.get('select'), opt.get('may_throw', False), opt.get('arity'))
+        if opt.get('static'):
+            cfi.is_method = False   # called on a library singleton (R19b): the object is dropped, the contract is for that instance
         functable.setdefault(q, []).append(cfi)
         callee_infos.append((cfi, opt))
     for spec in job.inline:
@@ -196,7 +200,22 @@ def build_tu(proj, job):
     for c in sorted(need_struct):
         parts.append(T.emit_struct(proj, c, real))
     parts.append(T.capture_decls(contract))
-    parts.append(contract.emit_ghost())
+    ghost_done = set()
+    ghost_inits = []
+
+    def emit_ghost_of(cc):
+        out = []
+        key = os.path.abspath(cc.path)
+        if key in ghost_done:
+            return ''
+        ghost_done.add(key)
+        for u in cc.uses:
+            out.append(emit_ghost_of(T.Contract(T.contract_path(u))))
+        out.append(cc.emit_ghost())
+        if cc.ghost_init:
+            ghost_inits.append(' '.join(l.strip() for l in cc.ghost_init[2]))
+        return '\n'.join(out)
+    own_ghost_later = True
     # callee contracts
     replace_cnames = []
     callee_contracts = []
@@ -205,10 +224,11 @@ def build_tu(proj, job):
         cc = T.Contract(T.contract_path(cfi.cname))
         if not cc.clauses:
             raise ExtractError('no contract file for replaced callee %s (%s)' % (cfi.cname, cc.path))
-        parts.append(cc.emit_ghost())
+        parts.append(emit_ghost_of(cc))
         parts.append(T.callee_decl(cfi, cc))
         callee_contracts.append(cc)
         replace_cnames.append(cfi.cname)
+    parts.append(emit_ghost_of(contract))
     # inlined helper bodies (extracted by the same rules)
     metas = []
     for cfi, opt in inline_infos:
@@ -221,15 +241,60 @@ def build_tu(proj, job):
     parts.append(ex.text)
     metas.insert(0, dict(function=fi.qualname, role='under contract', file=ex.srcrel, lines=list(ex.lines), sha256=ex.sha,
                          loop_contracts=ex.loops_spliced))
-    inits = []
-    for cc in [contract] + callee_contracts:
-        if cc.ghost_init:
-            inits.append(' '.join(l.strip() for l in cc.ghost_init[2]))
-    parts.append('#define VERIF_GHOST_INIT ' + ' '.join(inits))
+    parts.append('#define VERIF_GHOST_INIT ' + ' '.join(ghost_inits))
     parts.append(gen_harness(job, fi, contract))
     text = '\n'.join(parts) + '\n'
     return dict(text=text, entry='h_' + fi.cname, cname=fi.cname, replace=replace_cnames, contract=contract,
                 report=report, metas=metas, fi=fi, has_loops=bool(contract.loops), loop_lines=ex.loop_lines)
+
+
+def build_lemma_tu(proj, job, report):
+    """a lemma over contracts: the harness of contracts/<job>.c calls functions that are all replaced by their
+    contracts (their bodies are not in the TU) and asserts a consequence"""
+    real = job.real
+    contract = T.Contract(T.contract_path(job.contract_name or job.name.replace('.', '_')))
+    if contract.harness is None:
+        raise ExtractError('lemma %s has no /*@ harness */' % job.name)
+    parts = [PRELUDE % dict(strcap=job.strcap)]
+    seen = set()
+    for c in ['Math'] + [c.lstrip('<') for c in job.const_classes]:
+        if c not in seen:
+            parts.append(T.emit_constants(proj, c, own=False, real=real, report=report))
+            seen.add(c)
+    ghost_done = set()
+    ghost_inits = []
+
+    def emit_ghost_of(cc):
+        out = []
+        key = os.path.abspath(cc.path)
+        if key in ghost_done:
+            return ''
+        ghost_done.add(key)
+        for u in cc.uses:
+            out.append(emit_ghost_of(T.Contract(T.contract_path(u))))
+        out.append(cc.emit_ghost())
+        if cc.ghost_init:
+            ghost_inits.append(' '.join(l.strip() for l in cc.ghost_init[2]))
+        return '\n'.join(out)
+    replace_cnames = []
+    for spec in job.replace:
+        q, opt = _callee(spec)
+        cfi = T.funcinfo(proj, q, opt.get('cname'), real, opt.get('select'), opt.get('may_throw', False), opt.get('arity'))
+        if opt.get('static'):
+            cfi.is_method = False
+        cc = T.Contract(T.contract_path(cfi.cname))
+        if not cc.clauses:
+            raise ExtractError('no contract file for callee %s' % cfi.cname)
+        parts.append(emit_ghost_of(cc))
+        parts.append(T.callee_decl(cfi, cc))
+        replace_cnames.append(cfi.cname)
+    parts.append(emit_ghost_of(contract))
+    parts.append('#define VERIF_GHOST_INIT ' + ' '.join(ghost_inits))
+    parts.append(('#line %d "%s"\n' % (contract.harness[1], contract.path)) + '\n'.join(contract.harness[2]))
+    cname = job.cname
+    return dict(text='\n'.join(parts) + '\n', entry='h_' + cname, cname=None, replace=replace_cnames, contract=contract,
+                report=report, metas=[dict(function='(lemma over the contracts of %s)' % ', '.join(replace_cnames), role='lemma')],
+                fi=None, has_loops=False, loop_lines=[])
 
 
 def _limit():
@@ -288,7 +353,7 @@ def run_job(proj, job, workdir, tier='quick', seed=0, only_property=None):
     res['metas'] = b['metas']
     res['rules'] = dict(b['report'].rules)
     res['dropped'] = b['report'].dropped
-    res['cname'] = b['cname']
+    res['cname'] = b['cname'] or job.cname
     res['contract_path'] = b['contract'].path
     res['fi'] = b['fi']
     res['strcap'] = job.strcap
@@ -330,7 +395,7 @@ def run_job(proj, job, workdir, tier='quick', seed=0, only_property=None):
                 res['diag'] = 'goto-instrument pre-unwinding failed:\n' + (out + err)[-2000:]
                 return res
             a_gb = a2
-    cmd = ['goto-instrument', '--dfcc', b['entry'], '--enforce-contract', b['cname']]
+    cmd = ['goto-instrument', '--dfcc', b['entry']] + (['--enforce-contract', b['cname']] if b['cname'] else [])
     for r in b['replace']:
         cmd += ['--replace-call-with-contract', r]
     if b['has_loops']:
@@ -352,7 +417,7 @@ def run_job(proj, job, workdir, tier='quick', seed=0, only_property=None):
         us['vstr_find_first_not_of.0'] = job.strcap + 1
         for k, v in (getattr(job, 'unwindset', None) or {}).items():
             us[k] = v
-            if k.startswith(b['cname'] + '.'):
+            if b['cname'] and k.startswith(b['cname'] + '.'):
                 # DFCC renames the function under contract
                 us[b['cname'] + '_wrapped_for_contract_checking.' + k.split('.', 1)[1]] = v
         cmd += ['--unwindset', ','.join('%s:%d' % kv for kv in sorted(us.items()))]
